@@ -446,7 +446,7 @@ impl Fiber {
       "Offset past end of functions"
     );
     debug_assert!(
-      slot_depth < self.fun().max_slots(),
+      slot_depth < self.fun().max_slots() + self.fun().parameter_slots(),
       "Slot offset more than function maximum"
     );
 
